@@ -420,7 +420,8 @@ def run(tier, replay):
         if x["k"] == "cfg":
             if seen:
                 break
-            seen = x["nt"] == 3 and x["mode"] == "RoundRobin" and x["t"] >= 2
+            # a "locked" group: its log is totally ordered, so swapping two consecutive results must break it
+            seen = x["nt"] == 3 and x["mode"] == "RoundRobin" and x["t"] >= 2 and x["via"] == "locked"
         if seen:
             grp.append(dict(x))
     if len(grp) > 3:
